@@ -427,6 +427,70 @@ func c13CLI(c *Ctx) {
 	}
 }
 
+// c13EmptyBlocks: an override block that sets nothing (`deb:` with nothing under it, `deb: {}`, or a nil block in a
+// configuration built in Go) overrides nothing: the effective settings are the base settings.
+func c13EmptyBlocks(c *Ctx) {
+	fam := c.Rep.Family("empty-override-blocks", "exhaustive: 5 formats x {block that is YAML null, block that is an empty mapping, nil block in a Config built in Go}: nfpm.Parse / Config.Get must neither fail nor crash, and every overridable leaf of the effective settings equals the base; non-trivial = always")
+	fam.Exhaustive = true
+	base := "name: verifpkg\narch: amd64\nversion: 1.2.3\nmaintainer: Verif <verif@example.com>\ndescription: d\ndepends: [base-dependency]\numask: 0o027\n"
+	try := func(what, f string, get func() (*nfpm.Info, *nfpm.Info, error)) {
+		fam.Eval(what+"|"+f, true)
+		in := map[string]any{"format": f, "case": what}
+		var got, want *nfpm.Info
+		var err error
+		func() {
+			defer func() {
+				if r := recover(); r != nil {
+					err = fmt.Errorf("panic: %v", r)
+				}
+			}()
+			got, want, err = get()
+		}()
+		if err != nil {
+			c.Rep.Find(report.Finding{Property: "C13", Family: fam.Name, Shape: "empty-block:" + what + ":fails",
+				What: fmt.Sprintf("an override block for %s that sets nothing (%s) makes the configuration unusable: %v", f, what, err), Input: in})
+			return
+		}
+		if !reflect.DeepEqual(got.Depends, want.Depends) || got.Umask != want.Umask || !reflect.DeepEqual(got.Scripts, want.Scripts) {
+			c.Rep.Find(report.Finding{Property: "C13", Family: fam.Name, Shape: "empty-block:" + what + ":settings-differ-from-base",
+				What: fmt.Sprintf("an override block for %s that sets nothing (%s) changes the effective settings: depends %v umask %o, base %v %o", f, what, got.Depends, got.Umask, want.Depends, want.Umask), Input: in})
+		}
+	}
+	for _, f := range Formats {
+		f := f
+		for what, block := range map[string]string{"yaml-null": "overrides:\n  " + f + ":\n", "yaml-empty-mapping": "overrides:\n  " + f + ": {}\n"} {
+			doc := base + block
+			try(what, f, func() (*nfpm.Info, *nfpm.Info, error) {
+				cfg, err := nfpm.Parse(strings.NewReader(doc))
+				if err != nil {
+					return nil, nil, err
+				}
+				ref, err := nfpm.Parse(strings.NewReader(base))
+				if err != nil {
+					return nil, nil, err
+				}
+				got, err := cfg.Get(f)
+				if err != nil {
+					return nil, nil, err
+				}
+				want, err := ref.Get(f)
+				return got, want, err
+			})
+		}
+		try("nil-block-in-go", f, func() (*nfpm.Info, *nfpm.Info, error) {
+			mk := func(ov map[string]*nfpm.Overridables) *nfpm.Config {
+				return &nfpm.Config{Info: nfpm.Info{Name: "p", Arch: "amd64", Version: "1.0.0", Overridables: nfpm.Overridables{Depends: []string{"base-dependency"}, Umask: 0o027}}, Overrides: ov}
+			}
+			got, err := mk(map[string]*nfpm.Overridables{f: nil}).Get(f)
+			if err != nil {
+				return nil, nil, err
+			}
+			want, err := mk(nil).Get(f)
+			return got, want, err
+		})
+	}
+}
+
 func c13TaggedContents(c *Ctx) error {
 	fam := c.Rep.Family("tagged-contents-in-packages", "exhaustive: every entry type (file, config, config|noreplace, dir, symlink, tree, ghost, doc, licence, license, readme) x every packager tag (none + 5 formats) as one entry of a YAML configuration x {no override block, an override block for the built format that only sets depends} x 5 formats: nfpm.Parse, Config.Get(format), Package, independent decoding; the entry is in the package iff it is addressed to that format (or to all) and its type exists there; non-trivial = the entry is tagged")
 	fam.Exhaustive = true
@@ -644,6 +708,7 @@ func runC13(c *Ctx) error {
 		return err
 	}
 	c13CLI(c)
+	c13EmptyBlocks(c)
 	// validation rejects override blocks for names that are not registered packagers – also names that differ from a
 	// registered one only by letter case or blanks (Config.Get would never apply such a block)
 	famV := c.Rep.Family("override-block-names", "exhaustive: override blocks keyed by names that are not registered packagers (another word, each registered name in upper case, capitalised, with a trailing blank): Config.Validate and nfpm.Parse must reject them, nfpm.Get(name) must not hand out a packager for them; and for every registered name they must accept; non-trivial = always")
